@@ -26,6 +26,8 @@ def run_property(prop: str, tier: str, seed: int, root: str, out=print, write_ev
     try:
         prog = Program(root)
         mod.check(run, prog, tier)
+        if run.deferred_errors:
+            raise AnalysisError("; ".join(run.deferred_errors))
         if not run.obs:
             raise AnalysisError("no obligation was evaluated (vacuous run)")
         return report.finish(run, root, out=out, write_evidence=write_evidence)
